@@ -120,6 +120,34 @@ theorem C16_fills (s : Strategy) (m : String) : fills (defaultSpec s m).1 = true
       Bool.true_and]
     exact defaultCanary_fills c m
 
+/-- **Recognised ⇒ filled.** Whatever `IsDefaultedExtendedDaemonSet` accepts — defaulted by the
+controller or written out in full by the user — has every pointer the reconcilers dereference, so
+skipping the defaulting step on it is safe. -/
+theorem C16_recognised_implies_filled (s : Strategy) (tn : String) (h : isDefaulted s tn = true) :
+    fills s = true := by
+  unfold isDefaulted at h
+  unfold fills
+  simp only [Bool.and_eq_true] at h ⊢
+  obtain ⟨⟨⟨hr, hc⟩, hf⟩, _⟩ := h
+  refine ⟨⟨hr, hf⟩, ?_⟩
+  cases hcan : s.canary with
+  | none => rfl
+  | some c =>
+    rw [hcan] at hc
+    simp only [] at hc ⊢
+    unfold isDefaultedCanary at hc
+    simp only [Bool.and_eq_true, Bool.not_eq_true', bne_iff_ne, ne_eq] at hc
+    obtain ⟨⟨⟨⟨⟨h1, _⟩, h3⟩, h4⟩, h5⟩, h6⟩ := hc
+    simp only [Bool.and_eq_true, Bool.or_eq_true]
+    refine ⟨⟨⟨⟨h1, h4⟩, h5⟩, h6⟩, ?_⟩
+    by_cases hm : c.validationMode = "auto"
+    · right
+      simp only [hm, beq_self_eq_true, Bool.and_true] at h3
+      cases hd : c.duration with
+      | none => simp [hd] at h3
+      | some _ => rfl
+    · left; simp [hm]
+
 /-- **Defaulting is a no-op on a defaulted spec** — partial version.  `isDefaulted` does not look
 at `canary.noRestartsDuration`, but `defaultCanary` fills it in "auto" mode; so the statement
 `isDefaulted s tn = true → (defaultSpec s m).1 = s` needs the extra hypothesis that an "auto"
